@@ -166,7 +166,7 @@ var valueAlphabets = []string{
 }
 
 // genValue draws an attribute value in the documented grammar: no comma, no
-// '=', no backslash, not starting with '#', no leading/trailing white space.
+// '=', no backslash in front of a separator or at the end, not starting with '#', no leading/trailing white space.
 func genValue(t *rapid.T, label string) string {
 	alpha := []rune(valueAlphabets[rapid.IntRange(0, len(valueAlphabets)-1).Draw(t, label+"-alpha")])
 	n := rapid.IntRange(1, 24).Draw(t, label+"-len")
@@ -187,6 +187,16 @@ func genValue(t *rapid.T, label string) string {
 			s = s + " " + tail
 		}
 		s = strings.TrimSpace(s)
+	}
+	if rapid.IntRange(0, 11).Draw(t, label+"-backslash") == 0 {
+		// a backslash that does not stand in front of a separator is a character like any other (domain\user, a path,
+		// something that looks like an escape sequence of another syntax): the text stays as written
+		mid := rapid.SampledFrom([]string{`\20`, `\41`, `\c3\a9`, `\EU`, `\user`, `\n`, `\\`, `\x41`, `\2`, `\#`, `\+`, `\"`}).Draw(t, label+"-bsmid")
+		if n <= 24 && rapid.Bool().Draw(t, label+"-bsshort") {
+			s = "Share" + mid + "23"
+		} else {
+			s = s + mid + "z"
+		}
 	}
 	s = strings.TrimLeft(s, "#")
 	s = strings.TrimSpace(s)
